@@ -29,6 +29,9 @@ def extra(report, env):
     for n in documented:
         res.append(('registry.%s' % n, n in names, 'documented but not registered'))
     table_obligations(report, 'C09', res)
+    # per-instance tables are created fresh in __init__ (shared with C03): a shared table would make names of one parser resolve on another
+    from props.C03 import init_obligations
+    table_obligations(report, 'C09', init_obligations(env['repo']))
     # --- identifier regex obligation
     try:
         obs, langs, order = lexer_facts.obligations(env['repo'])
@@ -125,6 +128,19 @@ def extra(report, env):
         r = e2e.new_parser().parse(text)
         if r['error'] != '#NAME?' and len(fails) < 5:
             fails.append({'formula': text, 'detail': 'a call to an unregistered function gives %r, expected #NAME?' % (r,)})
+    # bindings of one parser are invisible to every other parser (also TRUE/FALSE/NULL shadowing)
+    pa, pb = e2e.new_parser(), e2e.new_parser()
+    pa.set_variable('rate', 0.25)
+    pa.set_variable('TRUE', 'yes')
+    pa.set_function('ONLYA', lambda: 1)
+    cases += 4
+    for text, want in (('rate', '#NAME?'), ('rate*4', '#NAME?'), ('ONLYA()', '#NAME?')):
+        r = pb.parse(text)
+        if r['error'] != want and len(fails) < 5:
+            fails.append({'formula': text, 'detail': 'bound on another parser only, yet evaluates to %r here' % (r,)})
+    r = e2e.new_parser().parse('TRUE')
+    if r['result'] is not True and len(fails) < 5:
+        fails.append({'formula': 'TRUE', 'detail': 'predefined name shadowed through another parser: %r' % (r,)})
     for n in sorted(names):
         cases += 1
         from hotxlfp import formulas
